@@ -11,6 +11,8 @@ UNITS = {
     "A.pair": {"pkg": "motion"},
     "A.ffc": {"pkg": "motion"},
     "A.dyn": {"pkg": "motion"},
+    "A.ring": {"pkg": "motion"},
+    "L.log": {"pkg": "loglimiter"},
 }
 
 _EXPL = "exploration"
@@ -70,4 +72,14 @@ PROPS = {
             "level_note": _NOTE_A,
             "technique": "seeded history generation + invariants (simulator contributes histories only)",
             "required_probes": ["background-reseeded", "threshold-recomputed-mean", "threshold-recomputed-min", "threshold-recomputed-max", "recording-start-with-dynamic-threshold"]},
+    "C19": {"level": _EXPL, "units": ["A.ring"], "quick_s": 15, "thorough_s": 240,
+            "level_text": "seeded operation sequences against a reference ring; the abstract state space is small and the number of distinct states reached is reported",
+            "level_note": _NOTE_A,
+            "technique": "seeded operation histories + executable reference model (simulator contributes histories only)",
+            "required_probes": ["set-as-oldest", "reset", "mark-at-last-retained-slot"]},
+    "C20": {"level": _EXPL, "units": ["L.log"], "quick_s": 15, "thorough_s": 240,
+            "level_text": "seeded (message, arrival time) histories on a simulated clock incl. exact interval boundaries; captured output vs reference limiter, line by line",
+            "level_note": "trusted: simulated clock injected in-package (nowFunc), R-log written from the statement; sampling",
+            "technique": "deterministic simulation: simulated clock, seeded arrival histories, reference model",
+            "required_probes": ["repeat-suppressed", "repeat-printed-after-interval", "arrival-exactly-at-interval"]},
 }
